@@ -13,7 +13,12 @@ CTXFREE = ['lysc', 'arg-c', 'cnbr', 'glutamyl endopeptidase', 'asp-n', 'lysn']
 
 
 def out_of(case, wd, paths, name, **over):
-    fa, _ = cvmon.execute(case, wd, paths, out=name + '.fasta', **over)
+    try:
+        fa, _ = cvmon.execute(case, wd, paths, out=name + '.fasta', **over)
+    except Exception as e:
+        import traceback
+        raise ToolCrash({'type': type(e).__name__, 'msg': str(e)[:300], 'tb': traceback.format_exc()[-1800:],
+                         'has_nested': case.stratum == 'as_nested'})
     return {s: h for h, s in fa}
 
 
@@ -29,7 +34,26 @@ def violates_limit(p, cfgA):
     return n_loose > limA.miscleavage
 
 
+class ToolCrash(Exception):
+    def __init__(self, te):
+        super().__init__(te['msg'])
+        self.te = te
+
+
 def run_case(spec):
+    """A crash of callVariant on a valid input is reported as such (and attributed to the recorded crash mechanisms of
+    C01 where it matches one); the pair it belongs to cannot be judged."""
+    try:
+        return _run_case(spec)
+    except ToolCrash as e:
+        from harness.monitors import c01
+        te = e.te
+        return {'nontrivial': False, 'counters': {'cases': 1, 'tool_crashes': 1},
+                'violations': [{'kind': 'tool-crash', 'mech': c01.crash_mech(te, {'has_nested': te.get('has_nested')}),
+                                'msg': f"callVariant raised {te['type']}: {te['msg']}\n{te['tb'][-700:]}"}]}
+
+
+def _run_case(spec):
     rng = random.Random(spec['seed'])
     kind = spec['kind']
     dense = kind in ('records-dense', 'limits-dense')
